@@ -62,6 +62,8 @@ def gen_case(rng, i, tier):
         N = rng.choice([50000, 100000, 250000] if tier == "quick" else [100000, 500000, 1000000])
     if ch > 8:
         N = min(N, 6000)
+    if not q.startswith(("m", "M", "Q")) and rng.random() < 0.3:
+        q = "D" + q          # packets straight from vorbis_analysis(vb,&op): the other documented way to get them on an unmanaged stream
     part = partition(rng, N)
     if rng.random() < 0.3:
         # over-submissions in between (more than vorbis_analysis_buffer handed out): refused, and the encode goes on as if nothing had been asked
